@@ -47,6 +47,7 @@ structure Tables where
   descRaw : Bool
   toolOmitsDirectives : Bool
   assureOnce : Bool
+  maxParseDepth : Option Nat
   unionFirstCome : Bool
   ifaceNeedsBound : Bool
   shallowRollback : Bool
